@@ -1,10 +1,20 @@
 #!/bin/sh
-# tools/selftest_all.sh [ID ...] : run every mutant of the given properties (default: all) and print a table.
+# tools/selftest_all.sh [ID ...] : run every mutant of the given properties (default: all), print a table and
+# record results in mutants/RESULTS.json (used by tools/design_sync.py).
 cd "$(dirname "$0")/.."
-IDS="$*"; [ -z "$IDS" ] && IDS="$(ls mutants)"
+IDS="$*"; [ -z "$IDS" ] && IDS="$(ls mutants | grep '^C')"
 for id in $IDS; do
   for m in mutants/$id/*.diff; do
     [ -f "$m" ] || continue
-    ./selftest "$id" "$m" 2>&1 | grep "^SELFTEST"
+    line="$(./selftest "$id" "$m" 2>&1 | grep "^SELFTEST" | tail -1)"
+    echo "$line"
+    python3 - "$id/$(basename "$m")" "$line" <<'PY'
+import json, os, sys
+p = 'mutants/RESULTS.json'
+r = json.load(open(p)) if os.path.exists(p) else {}
+line = sys.argv[2]
+r[sys.argv[1]] = 'CAUGHT' if line.endswith('CAUGHT') else ('MISSED' if 'MISSED' in line else 'patch does not apply')
+json.dump(r, open(p, 'w'), indent=1, sort_keys=True)
+PY
   done
 done
